@@ -3,6 +3,7 @@
 from __future__ import annotations
 
 import ast
+import copy
 import hashlib
 import os
 from pathlib import Path
@@ -132,12 +133,18 @@ class _Canon(ast.NodeTransformer):
     def _canon_if(self, n: ast.If):
         if isinstance(n.test, ast.Constant) and isinstance(n.test.value, bool):
             return list(n.body) if n.test.value else list(n.orelse)  # a decided conditional is its live branch
+        # `if c: A elif not c: B` (no final else): the second test is reached only when c is false, where - c being effect-free - it holds
+        if len(n.orelse) == 1 and isinstance(n.orelse[0], ast.If) and not n.orelse[0].orelse and _effect_free(n.test) \
+                and ast.dump(_neg(copy.deepcopy(n.test))) == ast.dump(n.orelse[0].test):
+            n.orelse = list(n.orelse[0].body)
         if n.orelse and isinstance(n.test, ast.UnaryOp) and isinstance(n.test.op, ast.Not):
             n.test, n.body, n.orelse = n.test.operand, n.orelse, n.body
         if n.orelse and all(isinstance(x, ast.Pass) for x in n.body):
             n.test, n.body, n.orelse = _neg(n.test), n.orelse, []
         if n.orelse and all(isinstance(x, ast.Pass) for x in n.orelse):
             n.orelse = []
+        if not n.orelse and all(isinstance(x, ast.Pass) for x in n.body) and _effect_free(n.test):
+            return []  # nothing is done either way
         if n.orelse and _terminates(n.orelse) and not _terminates(n.body):
             rest = n.body
             n.test, n.body, n.orelse = _neg(n.test), n.orelse, []
